@@ -16,12 +16,17 @@ package main
 //         W<ms>  wait
 //         N<k>   k prompt online updates (for the connection count)
 //         C      sample connections / goroutines
+//         HA<ms> queue a connection set-up time for the next connection to the account-balance peer (peerproxy.go)
+//         HR<ms> … to the rating peer
+//         Q<k>   the stored account document becomes one the servers cannot digest (0: quota a number, 1: quota missing,
+//                2: quota not numeric, 3: unitCost a number, 4: unitCost missing, 9: restored): the server handling the
+//                request fails (a recovered panic or an early return) and does not answer
 //
 // observation: one token per step that observes something
 //         U -> u=<status>:<grant|->:<cost>:<resDelta>:<ccr seq consumed|0|?>:<elapsed ms>:<done>
 //              a trailing :<k> = k account-balance requests made during the update were still unanswered when it returned
 //         F -> f=<status>:<elapsed ms>:<done>:<k>   (k as above)
-//         C -> c=<established connections to the two peers>:<goroutines above baseline, bucketed>:<the same, raw>:<go-diameter watchdog goroutines alive>:<goroutines running (or started by) an answer handler HandleSUA/HandleCCA>
+//         C -> c=<established connections to the two peers>:<goroutines above baseline, bucketed>:<the same, raw>:<go-diameter watchdog goroutines alive>:<goroutines running (or started by) an answer handler HandleSUA/HandleCCA>:<goroutines inside a request handler of the rating / account-balance server, not counting those the script itself keeps asleep>:<sockets of the process on the Diameter ports in any state but LISTEN, above the baseline>
 //         D<k> -> from now on every answer reaches the CHF k times (through a relay, see relay.go)
 //
 // Every account-balance request of the scenario tops the reservation up by an amount that is a sum of a run
@@ -221,7 +226,7 @@ func peerConns() int {
 				continue
 			}
 			port, _ := strconv.ParseInt(rp[1], 16, 32)
-			if (!relaying && (int(port) == rfPort || int(port) == abmfPort)) || (relaying && (int(port) == relayRfPort || int(port) == relayAbmfPort)) {
+			if clientPeerPorts()[int(port)] {
 				n++
 			}
 		}
@@ -261,6 +266,11 @@ func runPeer(line string, t []string) string {
 			useRelay()
 		}
 	}
+	for _, s := range steps {
+		if strings.HasPrefix(s, "H") {
+			useProxy()
+		}
+	}
 	sc := &peerScript{byGoid: map[uint64]*ccrLog{}}
 	peerMu.Lock()
 	peerScripts[supi] = sc
@@ -286,6 +296,7 @@ func runPeer(line string, t []string) string {
 	time.Sleep(50 * time.Millisecond)
 	baseGor := runtime.NumGoroutine()
 	baseConns := peerConns()
+	baseSocks := peerSocketsAnyState()
 	var out []string
 	seq := 1
 	ue, _ := self.ChfUeFindBySupi(supi)
@@ -371,6 +382,25 @@ func runPeer(line string, t []string) string {
 			return "bad-op"
 		}
 		arg := 0
+		if s[0] == 'H' {
+			// HA<ms> / HR<ms>
+			if len(s) < 3 {
+				return "bad-op"
+			}
+			v, err := strconv.Atoi(s[2:])
+			if err != nil || v < 0 || v > 20000 {
+				return "bad-op"
+			}
+			switch s[1] {
+			case 'A':
+				abmfSetupQ.push(v)
+			case 'R':
+				rfSetupQ.push(v)
+			default:
+				return "bad-op"
+			}
+			continue
+		}
 		if len(s) > 1 {
 			v, err := strconv.Atoi(s[1:])
 			if err != nil {
@@ -389,6 +419,10 @@ func runPeer(line string, t []string) string {
 			sc.mu.Unlock()
 		case 'W':
 			time.Sleep(time.Duration(arg) * time.Millisecond)
+		case 'Q':
+			if !spoilDocument(supi, arg) {
+				return "bad-op"
+			}
 		case 'D':
 			if arg < 1 || arg > 8 {
 				return "bad-op"
@@ -424,32 +458,53 @@ func runPeer(line string, t []string) string {
 			}
 			out = append(out, fmt.Sprintf("n=%d:%d", arg, btoi(!hung)))
 		case 'C':
-			time.Sleep(300 * time.Millisecond)
-			g := runtime.NumGoroutine() - baseGor
-			gb := "0"
-			switch {
-			case g > 200:
-				gb = ">200"
-			case g > 40:
-				gb = ">40"
-			case g > 12:
-				gb = ">12"
-			}
-			buf := make([]byte, 4<<20)
-			stacks := string(buf[:runtime.Stack(buf, true)])
-			if os.Getenv("VERIF_GDUMP") != "" {
-				fmt.Fprintf(os.Stderr, "%s\n", stacks)
-			}
-			// go-diameter's per-connection watchdog tasks still running (no connection is open by now)
-			wd := strings.Count(stacks, "sm.(*Client).watchdog(")
-			// answer handlers of the CHF's clients that have not returned
-			hd := 0
-			for _, g := range strings.Split(stacks, "\n\n") {
-				if strings.Contains(g, "HandleSUA.func") || strings.Contains(g, "HandleCCA.func") {
-					hd++
+			// what is left behind stays behind: when a count is not zero the sample is repeated (up to twice, a second
+			// apart), so that a teardown still in flight on a loaded machine is not taken for a leak
+			var obs string
+			for try := 0; try < 3; try++ {
+				if try == 0 {
+					time.Sleep(300 * time.Millisecond)
+				} else {
+					time.Sleep(time.Second)
+				}
+				g := runtime.NumGoroutine() - baseGor
+				gb := "0"
+				switch {
+				case g > 200:
+					gb = ">200"
+				case g > 40:
+					gb = ">40"
+				case g > 12:
+					gb = ">12"
+				}
+				buf := make([]byte, 4<<20)
+				stacks := string(buf[:runtime.Stack(buf, true)])
+				if os.Getenv("VERIF_GDUMP") != "" {
+					fmt.Fprintf(os.Stderr, "%s\n", stacks)
+				}
+				// go-diameter's per-connection watchdog tasks still running (no connection is open by now)
+				wd := strings.Count(stacks, "sm.(*Client).watchdog(")
+				// answer handlers of the CHF's clients that have not returned
+				hd := 0
+				for _, g := range strings.Split(stacks, "\n\n") {
+					if strings.Contains(g, "HandleSUA.func") || strings.Contains(g, "HandleCCA.func") {
+						hd++
+					}
+				}
+				// request handlers of the two servers still running; those asleep in the scripted delay do not count
+				sh := 0
+				for _, g := range strings.Split(stacks, "\n\n") {
+					if serverHandlerTasks(g) > 0 && !strings.Contains(g, "main.peerGetOne") {
+						sh++
+					}
+				}
+				conns, socks := peerConns()-baseConns, peerSocketsAnyState()-baseSocks
+				obs = fmt.Sprintf("c=%d:%s:%d:%d:%d:%d:%d", conns, gb, g, wd, hd, sh, socks)
+				if conns <= 0 && gb == "0" && wd == 0 && hd == 0 && sh == 0 && socks <= 0 {
+					break
 				}
 			}
-			out = append(out, fmt.Sprintf("c=%d:%s:%d:%d:%d", peerConns()-baseConns, gb, g, wd, hd))
+			out = append(out, obs)
 		default:
 			return "bad-op"
 		}
@@ -496,8 +551,8 @@ func genPeer(o genOpts, w *bufio.Writer) {
 	// C19: the settlement of a final report (debit mode) is a request of the operation like any other: the operation waits
 	// for its answer (slow, late, lost), and the next reservation of the subscriber acts on its own answer
 	scen("U100 A1500 F10 C")
-	scen("U100 A1500 A2500 F10 U228 C")                      // settlement answer slow, the next reservation's slower
-	scen(fmt.Sprintf("U100 A%d F10 U228 W3000 C", late))     // settlement answer later than the timeout
+	scen("U100 A1500 A2500 F10 U228 C")                  // settlement answer slow, the next reservation's slower
+	scen(fmt.Sprintf("U100 A%d F10 U228 W3000 C", late)) // settlement answer later than the timeout
 	scen("U100 R1500 A800 F10 A1200 U228 F20 C")
 	// the same for the rating peer (three rating requests per update)
 	scen(fmt.Sprintf("R%d U100 U228 C", late))
@@ -511,6 +566,34 @@ func genPeer(o genOpts, w *bufio.Writer) {
 		scen(fmt.Sprintf("U100 R%d A%d A%d F%d U228 W%d C", r.pick(0, 0, 800, 1500), r.pick(0, 800, 1500, 2500, late), r.pick(0, 800, 2500, late),
 			r.pick(0, 1, 10, 99), r.pick(0, 2000)))
 	}
+	// a peer that accepts the connection and is slow to complete the set-up (TLS handshake), for either client:
+	// C18: the slow dial is the last one of the update (nothing re-uses the client afterwards), the count is taken after
+	// the set-up has had time to complete; several such requests in a row; the first dial of an update slow
+	scen("HR0 HR0 HR2500 U100 W1500 C")
+	scen("HR0 HR0 HR6500 U100 W5500 C")
+	scen("HR3500 U100 W2500 C")
+	scen("HA2500 U100 W1500 C")
+	scen("HA6500 U100 W1000 C")
+	scen("HR0 HR0 HR2500 U100 HR0 HR0 HR3000 U228 HR0 HR0 HR3500 U484 W2500 C")
+	// C19: set-up time plus answer time beyond the client's 5 s although the answer itself is in time, then a request
+	// whose connection is slow as well (the earlier answer arrives while it is being set up)
+	scen("HA2500 HA2500 A3500 U100 U228 W1000 C")
+	scen("HR2500 HR2500 R3500 U100 U228 W1000 C")
+	if o.tier == "thorough" {
+		scen("HA1500 HA1500 A4000 U100 U228 W1000 C")
+		scen("HA3500 HA1500 A2500 U100 U228 U484 W1000 C")
+		scen("HR1500 HR0 HR0 HR1500 R4000 U100 U228 W1000 C")
+	}
+	// stored account documents a server cannot digest: its handler fails without an answer (recovered panic or early
+	// return); the requests time out and complete, and nothing of them may stay behind on either side
+	scen("Q0 U100 U228 U484 W1000 C")
+	scen("Q1 U100 U228 W1000 C")
+	scen("Q2 U100 Q9 U228 W500 C")
+	scen("Q3 U100 U228 W1000 C")
+	if o.tier == "thorough" {
+		scen("Q4 U100 Q0 U228 Q9 U484 W1000 C")
+		scen("Q0 U100 U228 U484 U996 U2020 U4068 W1000 C")
+	}
 	// random patterns
 	for i := 0; i < o.n; i++ {
 		var sb []string
@@ -519,7 +602,19 @@ func genPeer(o genOpts, w *bufio.Writer) {
 		if r.chance(30) {
 			sb = append(sb, fmt.Sprintf("D%d", r.pick(2, 3, 4)))
 		}
+		spoilt := false
 		for j := 0; j < k; j++ {
+			// at most one slow connection set-up per update (an update must stay within its 14 s)
+			if r.chance(35) {
+				sb = append(sb, fmt.Sprintf("H%s%d", r.pickStr("A", "R", "R"), r.pick(300, 700, 1500, 2500)))
+			}
+			if r.chance(12) && !spoilt {
+				sb = append(sb, fmt.Sprintf("Q%d", r.pick(0, 1, 2)))
+				spoilt = true
+			} else if spoilt && r.chance(50) {
+				sb = append(sb, "Q9")
+				spoilt = false
+			}
 			for q := 0; q < r.intn(3); q++ {
 				d := r.pick(0, 0, 800, 2500, late, late, never)
 				sb = append(sb, fmt.Sprintf("%s%d", r.pickStr("A", "R"), d))
